@@ -346,11 +346,14 @@ func runResponse(s respScenario) core.Result {
 			want = httpref.Outcome{K: httpref.Zero}
 		}
 		r.Class = "expect:" + string(want.K) + ifs(want.K == httpref.ToTarget, ":"+string(want.Src), "")
-		for _, entry := range []string{"BinaryConv.Do", "HTTPConv.Do"} {
+		// NoCopyString only says how string memory is handed on: every delivered value is the same with and without it
+		for _, entry := range []string{"BinaryConv.Do", "HTTPConv.Do", "BinaryConv.Do,NoCopyString", "HTTPConv.Do,NoCopyString"} {
 			resp := dhttp.NewHTTPResponse()
 			var ob respObs
-			if entry == "BinaryConv.Do" {
-				cv := t2j.NewBinaryConv(s.convOpts())
+			copts := s.convOpts()
+			copts.NoCopyString = strings.HasSuffix(entry, ",NoCopyString")
+			if strings.HasPrefix(entry, "BinaryConv.Do") {
+				cv := t2j.NewBinaryConv(copts)
 				ctx := context.WithValue(context.Background(), conv.CtxKeyHTTPResponse, resp)
 				ob.body, ob.err = cv.Do(ctx, desc, msg)
 				if resp.Response.Body != nil {
@@ -358,7 +361,7 @@ func runResponse(s respScenario) core.Result {
 				}
 			} else {
 				hc := t2j.NewHTTPConv(meta.EncodingThriftBinary, p.fn)
-				ob.err = hc.Do(context.Background(), resp, wrapReply(msg), s.convOpts())
+				ob.err = hc.Do(context.Background(), resp, wrapReply(msg), copts)
 				if ob.err == nil && resp.Response.Body != nil {
 					ob.body, _ = ioutil.ReadAll(resp.Response.Body)
 				}
@@ -454,7 +457,7 @@ func (s respScenario) judge(r *core.Result, want httpref.Outcome, entry string, 
 	_, inBody := obj["f"]
 	// which targets were hit?
 	hit := map[httpref.Source]bool{httpref.Header: ob.hasHd, httpref.Cookie: ob.hasCk, httpref.Code: ob.status != 0}
-	if entry == "BinaryConv.Do" {
+	if strings.HasPrefix(entry, "BinaryConv.Do") {
 		hit[httpref.RawBody] = ob.rawBody != nil
 	}
 	var hits []string
@@ -469,7 +472,7 @@ func (s respScenario) judge(r *core.Result, want httpref.Outcome, entry string, 
 	}
 	switch want.K {
 	case httpref.ToTarget:
-		if entry == "HTTPConv.Do" && want.Src == httpref.RawBody {
+		if strings.HasPrefix(entry, "HTTPConv.Do") && want.Src == httpref.RawBody {
 			// HTTPConv.Do stores the JSON document as the raw body afterwards: the delivery is not observable here
 			if inBody {
 				r.Add(sig(got), "%s: the field is still in the JSON body %s", where, ob.body)
